@@ -24,28 +24,14 @@
      + 4 (1 + rank n + pairs n^2) units of the coarsest precision involved (conversions, final normalisation).
    No proofs in this file. *)
 From PV Require Import Base.MachineInt Model.Znx Model.Limbs Model.LimbsBig Model.Flat Model.Ring Model.DftAbs
-  Model.C05Cnv Model.C05Core Model.C05Run.
+  Model.C05Cnv Model.C05Spec Model.C05Core Model.C05Run.
 Open Scope Z_scope.
 
 Definition ob (b : bool) : Z := if b then 1 else 0.
 Definition list_eqb (a b : list Z) : bool := Nat.eqb (length a) (length b) && forallb (fun q => fst q =? snd q) (combine a b).
 
-(* ---------------- spec-level polynomial helpers ---------------- *)
-Definition pscale (c : Z) (q : list Z) : list Z := map (Z.mul c) q.
-Definition norm1 (q : list Z) : Z := fold_left (fun acc x => acc + Z.abs x) q 0.
-Definition norminf (q : list Z) : Z := fold_left (fun acc x => Z.max acc (Z.abs x)) q 0.
-(* value of a limb vector scaled by 2^Q (Q >= size * b): sum_u l_u 2^(Q - (u+1) b), coefficient-wise *)
-Definition pval (n : nat) (Q b : Z) (l : plimbs) : list Z :=
-  fst (fold_left (fun (s : list Z * Z) x => (padd (fst s) (pscale (2 ^ (Q - (snd s + 1) * b)) x), snd s + 1)) l (pzero n, 0)).
-(* phase: sum_c val(col_c) * key_c *)
-Definition phase (n : nat) (Q b : Z) (cols : list plimbs) (key : list (list Z)) : list Z :=
-  fold_left padd (map (fun q => pmul (pval n Q b (fst q)) (snd q)) (combine cols key)) (pzero n).
+(* ---------------- spec-level polynomial helpers: C05Spec.v ---------------- *)
 Definition tor_dist (P : Z) (x y : list Z) : Z := norminf (map (wrap P) (psub x y)).
-
-(* (1, s_1 .. s_r) and the tensor key (s_i s_j)_{i <= j} *)
-Definition key1 (n : nat) (sk : list (list Z)) : list (list Z) := pconst n 1 :: sk.
-Definition key2 (n : nat) (sk : list (list Z)) : list (list Z) :=
-  let k := key1 n sk in map (fun q => pmul (nth (fst q) k []) (nth (snd q) k [])) (tpairs (length k)).
 Definition sum1 (l : list (list Z)) : Z := fold_left (fun acc q => acc + norm1 q) l 0.
 
 (* sum over the dropped index pairs of 2^(P + cnv - (u+v+2) ab) *)
@@ -217,4 +203,8 @@ Definition oracle_c05 (code : Z) (ps : list Z) (vs outs : list (list Z)) : Z :=
   if code <? 5100 then oracle_hal code ps vs outs
   else if code <? 5200 then oracle_core code ps vs outs
   else if code <? 5300 then ob (l2_fail code ps vs outs =? 0)
+  else if code <? 5340 then
+    (* virtual opcodes 53xy used by the classifier: is sub-check y of the level-2 oracle of 520x satisfied? *)
+    let x := (code - 5300) / 10 in let y := (code - 5300) mod 10 in
+    ob (negb (Z.testbit (l2_fail (5200 + x) ps vs outs) y))
   else 2.
